@@ -31,6 +31,7 @@
 #ifdef HAVE_SYS_EPOLL_H
 #  include <sys/epoll.h>
 #endif
+#include <limits.h>
 #ifdef HAVE_FCNTL_H
 #  include <fcntl.h>
 #endif
@@ -148,6 +149,12 @@ static size_t ares_evsys_epoll_wait(ares_event_thread_t *e,
   size_t                    cnt = 0;
 
   memset(events, 0, sizeof(events));
+
+  /* A timeout that does not fit in an int would turn negative, that is into an
+   * indefinite wait: wake up early instead, the caller recalculates. */
+  if (timeout_ms > INT_MAX) {
+    timeout_ms = INT_MAX;
+  }
 
   rv = epoll_wait(ep->epoll_fd, events, (int)nevents,
                   (timeout_ms == 0) ? -1 : (int)timeout_ms);
